@@ -50,6 +50,7 @@ def _transform_parallel(
     pio_in, pio_out, depth, make_buf, do_one, cli_progress, parallel
 ):
     import multiprocessing as mp
+    from .par_util import join_workers, put_checking_workers
 
     # Start up the workers
 
@@ -70,7 +71,7 @@ def _transform_parallel(
 
     with progress_bar(total=depth2tiles(depth), show=cli_progress) as progress:
         for pos in generate_pos(depth):
-            queue.put(pos)
+            put_checking_workers(queue, pos, workers, done_event)
             progress.update(1)
 
     # All done
@@ -78,9 +79,7 @@ def _transform_parallel(
     queue.close()
     queue.join_thread()
     done_event.set()
-
-    for w in workers:
-        w.join()
+    join_workers(workers)
 
 
 def _transform_mp_worker(queue, done_event, pio_in, pio_out, make_buf, do_one):
